@@ -288,7 +288,7 @@ func handleZLEXCOUNT(params internal.HandlerFuncParams) ([]byte, error) {
 	members := set.GetAll()
 
 	// Check if all members has the same score
-	for i := 0; i < len(members)-2; i++ {
+	for i := 0; i < len(members)-1; i++ {
 		if members[i].Score != members[i+1].Score {
 			return []byte(":0\r\n"), nil
 		}
